@@ -399,6 +399,10 @@ contract(
         f"self.bounds['{p}'][0] + self.offsets['{p}'])" for p in "ab"] + [
         KEEP_X,
         f"forall(i, 0, len(x), E(log_j[i]) == E(old(log_j)[i]) * {SJAC})",
+        # (stepping stones: the returned point rescaled to the unit
+        # interval is the sigmoid of the input)
+        f"forall(i, 0, len(x), {_u('a')} == {_sg('a')})",
+        f"forall(i, 0, len(x), {_u('b')} == {_sg('b')})",
         # ... additively, as a function of the returned point
         f"forall(i, 0, len(x), log_j[i] == old(log_j)[i] + ({ALOG}))"],
 )
@@ -505,4 +509,84 @@ contract(
              "and x['logL'][i] == old(x['logL'])[i] and "
              "x['logP'][i] == old(x['logP'])[i])",
              "result[0] is x and result[1] is x_prime and result[2] is log_j"],
+)
+
+
+# ======================================================================
+# layer 5: the bounds of the prime prior -- 'has the same support'.
+# determine_rescaled_bounds returns the images of the prior bounds under the
+# very map _rescale_to_bounds applies (pair lemma in checks/c07_pairs.py: a
+# point lies in the prior box iff its image lies between the returned
+# bounds), and update_prime_prior_bounds hands it this object's own bounds,
+# offsets and rescale bounds, per parameter.
+# ======================================================================
+_DRB_P = {"prior_min": "Real", "prior_max": "Real", "x_min": "Real",
+          "x_max": "Real", "invert": "None",
+          "inversion": ("const", False), "offset": "Real",
+          "rescale_bounds": "PyList(Real,2)"}
+_SC = "(rescale_bounds[1] - rescale_bounds[0])"
+contract(
+    RS, "determine_rescaled_bounds", props=["C07"],
+    params=_DRB_P,
+    raises={"ValueError": "x_min == x_max"},
+    returns="Tuple(Real,Real)",
+    ensures=[f"result[0] == {_SC} * (prior_min - offset - x_min) / "
+             f"(x_max - x_min) + rescale_bounds[0]",
+             f"result[1] == {_SC} * (prior_max - offset - x_min) / "
+             f"(x_max - x_min) + rescale_bounds[0]"],
+)
+# with inversion the rescaling is to [0, 1] and the reflected copy doubles
+# the support: [-upper, upper] (lower edge), [lower - 1, 1 - lower] (upper)
+for _inv, _ens in (
+        ("lower", ["result[0] == -((prior_max - offset - x_min) / "
+                   "(x_max - x_min))",
+                   "result[1] == (prior_max - offset - x_min) / "
+                   "(x_max - x_min)"]),
+        ("upper", ["result[0] == (prior_min - offset - x_min) / "
+                   "(x_max - x_min) - 1",
+                   "result[1] == 1 - (prior_min - offset - x_min) / "
+                   "(x_max - x_min)"])):
+    contract(
+        RS, "determine_rescaled_bounds", variant_name=f"inv-{_inv}",
+        props=["C07"],
+        params=dict(_DRB_P, invert=("const", _inv),
+                    inversion=("const", True)),
+        ident_name=f"determine_rescaled_bounds#inv-{_inv}",
+        raises={"ValueError": "x_min == x_max"},
+        returns="Tuple(Real,Real)", ensures=_ens,
+    )
+
+shape("RescalePrimeBounds", {
+    "has_prime_prior": "Bool",
+    "parameters": "PyConst(['a', 'b'])",
+    "prime_parameters": "PyConst(['a_prime', 'b_prime'])",
+    "pre_prior_bounds": "Dict(a:PyList(Real,2),b:PyList(Real,2))",
+    "bounds": "Dict(a:PyList(Real,2),b:PyList(Real,2))",
+    "offsets": D2,
+    "rescale_bounds": "Dict(a:PyList(Real,2),b:PyList(Real,2))",
+    "_edges": "None", "boundary_inversion": "PyConst(False)",
+    "prime_prior_bounds": "Any",
+}, cls="RescaleToBounds")
+
+
+def _img(p, j):
+    return (f"(self.rescale_bounds['{p}'][1] - self.rescale_bounds['{p}'][0])"
+            f" * (self.pre_prior_bounds['{p}'][{j}] - self.offsets['{p}'] - "
+            f"self.bounds['{p}'][0]) / {_w(p)} + "
+            f"self.rescale_bounds['{p}'][0]")
+
+
+contract(RR, "RescaleToBounds.post_rescaling", props=["C07"], inline=True,
+         verify=False)
+contract(
+    RR, "RescaleToBounds.update_prime_prior_bounds", props=["C07"],
+    self_shape="RescalePrimeBounds",
+    requires=["self.bounds['a'][0] != self.bounds['a'][1]",
+              "self.bounds['b'][0] != self.bounds['b'][1]"],
+    modifies=["self.prime_prior_bounds"],
+    ensures=["implies(not self.has_prime_prior, "
+             "self.prime_prior_bounds is old(self.prime_prior_bounds))"] + [
+        f"implies(self.has_prime_prior, "
+        f"self.prime_prior_bounds['{p}_prime'][{j}] == {_img(p, j)})"
+        for p in "ab" for j in (0, 1)],
 )
